@@ -275,6 +275,20 @@ impl ModuleRef {
             .map(crate::time::Driver::verif_snapshot)
     }
 
+    /// Verification hook (only with `--cfg petrichorit_des_verif`): the ids of the timer
+    /// entries registered with this module's driver, per pending slot in queue order.
+    /// `None` while the module is executing an event (the driver is checked out then).
+    #[cfg(all(petrichorit_des_verif, feature = "async"))]
+    #[must_use]
+    pub fn verif_timer_entry_ids(&self) -> Option<Vec<(crate::time::SimTime, Vec<usize>)>> {
+        self.ctx
+            .async_ext
+            .read()
+            .driver
+            .as_ref()
+            .map(crate::time::Driver::verif_entry_ids)
+    }
+
     /// Creates a gate on the current module, returning its ID.
     ///
     #[must_use]
